@@ -266,12 +266,17 @@ func (bs *blockState) ghostAt(anchor string, ins ssa.Instruction, extra map[stri
 				panic(contractMismatch{"set of unknown ghost variable " + gs.Target})
 			}
 			v := c.tr(gs.Clause.Expr)
-			k := "g:ghost." + gs.Target
-			so := flatten(specType(gt))[0]
-			e.heapKey(bs.st, k, so)
-			n := e.fresh("G."+gs.Target, so)
-			e.def(eq(n, v.C[0]))
-			bs.st.m[k] = n
+			for j, so := range flatten(specType(gt)) {
+				k := ghostKey(gs.Target, j)
+				e.heapKey(bs.st, k, so)
+				if isAtom(v.C[j]) {
+					bs.st.m[k] = v.C[j]
+					continue
+				}
+				n := e.fresh("G."+gs.Target, so)
+				e.def(eq(n, v.C[j]))
+				bs.st.m[k] = n
+			}
 		}
 	}
 }
@@ -284,6 +289,28 @@ func (bs *blockState) havocModifies(spec *FuncSpec, vars map[string]Val, ins ssa
 		case m == "nothing" || m == "":
 		case m == "all":
 			e.havocAll(bs.st, bs.g)
+		case strings.HasPrefix(m, "*"):
+			// the object a pointer argument (possibly boxed in an interface) points to
+			v, ok := vars[m[1:]]
+			if !ok {
+				panic(contractMismatch{"modifies " + m + ": no such parameter"})
+			}
+			ref := v.C[0]
+			t := v.T
+			if _, isI := t.Underlying().(*types.Interface); isI {
+				ref = v.C[1]
+				dt, ok := e.dynType[ref]
+				if !ok {
+					e.havocAll(bs.st, bs.g) // unknown dynamic type: forget everything
+					continue
+				}
+				t = dt
+			}
+			if p, ok := t.Underlying().(*types.Pointer); ok {
+				bs.havocObject(p.Elem(), ref)
+			} else {
+				e.havocAll(bs.st, bs.g)
+			}
 		case m == "alloc":
 			old := bs.st.m["alloc"]
 			bs.st.m["alloc"] = e.fresh("alloc", SInt)
@@ -308,7 +335,11 @@ func (e *Enc) resolveModifies(m string) [][2]string {
 		if !ok {
 			panic(contractMismatch{"unknown ghost variable in modifies: " + m})
 		}
-		return [][2]string{{"g:" + m, flatten(specType(gt))[0]}}
+		var out [][2]string
+		for j, so := range flatten(specType(gt)) {
+			out = append(out, [2]string{ghostKey(strings.TrimPrefix(m, "ghost."), j), so})
+		}
+		return out
 	}
 	parts := strings.Split(m, ".")
 	if len(parts) == 3 {
